@@ -249,3 +249,56 @@ func VerifC13_AnswerVsScanCounters() { verifAnswerVsScan() }
 // publish) gives every channel its own object, so one channel's owner / attempts / in-flight
 // bookkeeping cannot leak into another's counters (shared with C01).
 func VerifC13_FanOutKeepsChannelsApart() { verifTopicPumpFanOut() }
+
+// /stats with clients: every channel lists exactly its own consumers with their own counters
+// (two channels, each with one consumer whose counters are symbolic).
+func VerifC13_StatsPerConsumer() { verifrt.Atomic(verifC13PerConsumer) }
+
+func verifC13PerConsumer() {
+	o := verifOpts()
+	n := verifShellNSQD(o)
+	n.tcpServer = &tcpServer{nsqd: n}
+	verifrt.StubNative("(*github.com/nsqio/nsq/nsqd.NSQD).Notify", verifNotifyNop)
+	t := NewTopic("t", n, func(*Topic) {})
+	n.topicMap["t"] = t
+	names := []string{"alpha", "beta"}
+	var cls []*clientV2
+	for i, cn := range names {
+		c := NewChannel("t", cn, n, nil)
+		t.channelMap[cn] = c
+		cl, _ := verifClient(n, int64(i+1), nil)
+		cl.ClientID = "consumer-of-" + cn
+		cl.Channel = c
+		cl.State = stateSubscribed
+		cl.MessageCount = verifrt.Uint64("messages-" + cn)
+		cl.FinishCount = verifrt.Uint64("finished-" + cn)
+		cl.RequeueCount = verifrt.Uint64("requeued-" + cn)
+		cl.ReadyCount = int64(verifrt.Uint16("rdy-" + cn))
+		cl.InFlightCount = int64(verifrt.Uint16("inflight-" + cn))
+		c.AddClient(cl.ID, cl)
+		cls = append(cls, cl)
+	}
+	s := n.GetStats("", "", true)
+	verifrt.Assert(len(s.Topics) == 1 && len(s.Topics[0].Channels) == 2, "stats-list-both-channels")
+	if len(s.Topics) != 1 {
+		return
+	}
+	for _, cs := range s.Topics[0].Channels {
+		idx := 0
+		if cs.ChannelName == "beta" {
+			idx = 1
+		}
+		verifrt.Assert(cs.ClientCount == 1 && len(cs.Clients) == 1, "channel-lists-exactly-its-own-consumer")
+		if len(cs.Clients) == 1 {
+			got, ok := cs.Clients[0].(ClientV2Stats)
+			verifrt.Assert(ok, "consumer-stats-type")
+			if ok {
+				want := cls[idx]
+				verifrt.Assert(got.ClientID == want.ClientID, "channel-reports-its-own-consumer")
+				verifrt.Assert(got.MessageCount == want.MessageCount && got.FinishCount == want.FinishCount && got.RequeueCount == want.RequeueCount &&
+					got.ReadyCount == want.ReadyCount && got.InFlightCount == want.InFlightCount, "consumer-counters-are-that-consumers-own")
+			}
+		}
+	}
+	verifrt.Reach("two-channels-with-consumers", len(s.Topics[0].Channels) == 2)
+}
